@@ -7,6 +7,7 @@ import GoflowModel.Engine.Migrate
 import GoflowModel.Excellent.Guards
 import GoflowModel.Gen.Consts
 import GoflowModel.Driver.Util
+import GoflowModel.Excellent.SliceGuards
 /-
   numrender <coefficient> <exponent>        →  ok <hex text>
   numparse <hex text>                       →  ok <coefficient> <exponent> | err
@@ -17,7 +18,7 @@ import GoflowModel.Driver.Util
   cqlredact <hex property> <value empty 01>  →  accept | reject-redacted                  (VisitCondition under the urns policy)
   ctxview <redact01> <hex name> <id> <urns> <sendable schemes>  →  default=… urn=… urns=… by=…   (Contact.Context)
   repeatguard <len> <count> → ok <n> | err ; roundguard <places> → ok | err ; expguard <e> → ok | err ; callrun <e|l…> → ok <calls> <depth>
-  wordguard <n> <index> → ok <offset> | none ; wordsliceguard <n> <start> <end or -1> → ok <lo> <hi> | none ; fieldguard <n> <index> → ok <i> | none
+  beginguard <bytes of text> <bytes of beginning> → ok <slice end> | none ; readchars <hex ASCII text> → ok <hex> ; wordguard <n> <index> → ok <offset> | none ; wordsliceguard <n> <start> <end or -1> → ok <lo> <hi> | none ; fieldguard <n> <index> → ok <i> | none
   limitname <max> <hex name>                →  ok <hex>                                    (Migrate13_6)
   legacyorder <entry id> <id:y,…>           →  ok <ids in migrated order>                  (legacy.migrateNodes)
   objget <hex names,…> <hex key>            →  ok <index of the property found> | none   (XObject.Get)
@@ -137,6 +138,10 @@ def handle : List String → Option String
   | ["wordsliceguard", n, start, stop] => do
     some (match Guards.wordSliceBounds (← n.toNat?) (← parseInt start) (← parseInt stop) with
       | none => "none" | some (lo, hi) => s!"ok {lo} {hi}")
+  | ["beginguard", h, p] => do
+    some (match SliceGuards.beginningEnd (← h.toNat?) (← p.toNat?) with | none => "none" | some e => s!"ok {e}")
+  | ["readchars", h] => do
+    some ("ok " ++ encL (SliceGuards.readCharsAscii (← decL h)))
   | ["fieldguard", n, index] => do
     some (match Guards.fieldIndex (← n.toNat?) (← parseInt index) with | none => "none" | some i => s!"ok {i}")
   | ["expguard", e] => do
